@@ -2,6 +2,7 @@ mod c01;
 mod c02;
 mod c03;
 mod c07;
+mod c09;
 mod c10;
 mod c11;
 mod c12;
@@ -26,6 +27,7 @@ fn main() {
         "c02" => c02::run(&args),
         "c03" => c03::run(&args),
         "c07" => c07::run(&args),
+        "c09" => c09::run(&args),
         "c10" => c10::run(&args),
         "c11" => c11::run(&args),
         "c12" => c12::run(&args),
